@@ -8,6 +8,7 @@ void run_match(const char *input);
 void run_errstr(const char *input);
 void run_expr(const char *input);
 void run_buffmt(const char *input);
+void run_roundtrip(const char *input);
 void run_parse(const char *input);
 
 void dom_replay(const char *line) {
@@ -23,6 +24,7 @@ void dom_replay(const char *line) {
         case 'E': run_errstr(copy); break;
         case 'X': run_expr(copy); break;
         case 'F': run_buffmt(copy); break;
+        case 'Y': run_roundtrip(copy); break;
         case 'P': run_parse(copy); break;
         default: break;
     }
